@@ -30,6 +30,8 @@ pub enum Case {
     Quad { method: Meth, deg: usize, coef: Vec<f64>, x0: f64, len: f64, back: bool },
     /// accepted steps as a function of the tolerance
     Scaling { method: Meth, a: f64, b: f64, theta: f64, x0: f64, back: bool },
+    /// a callback answering XOut (dense output on demand) leaves every accepted step the method's step from (x, y)
+    XOut(crate::xoutrel::XCase),
 }
 
 fn yes() -> bool {
@@ -563,6 +565,7 @@ pub fn check(c: &Case) -> Outcome {
         Case::PadeRun { re, im, mult, e, x0, back, u0 } => check_pade_run(*re, *im, *mult, *e, *x0, *back, *u0),
         Case::Quad { method, deg, coef, x0, len, back } => check_quad(*method, *deg, coef, *x0, *len, *back),
         Case::Scaling { method, a, b, theta, x0, back } => check_scaling(*method, *a, *b, *theta, *x0, *back),
+        Case::XOut(x) => crate::xoutrel::check(x, crate::xoutrel::Aspect::Steps),
     }
 }
 
@@ -596,6 +599,7 @@ pub fn strategy() -> BoxedStrategy<Case> {
             Case::Quad { method, deg, coef, x0, len, back }
         }),
         1 => (emb, fr(-0.15, 0.02), fr(2.0, 5.0), fr(10.0, 25.0), fr(-10.0, 10.0), any::<bool>()).prop_map(|(method, a, b, theta, x0, back)| Case::Scaling { method, a, b, theta, x0, back }),
+        2 => crate::xoutrel::strategy().prop_map(Case::XOut),
     ]
     .boxed()
 }
@@ -626,7 +630,7 @@ pub fn run(ctx: &Ctx, known: &[Known]) -> Report {
     }
     Report {
         id: "C02".into(),
-        rule: "five kinds of cases: (1) tableau extraction at generated (x0 = k/8, h = +-2^j) with all rooted-tree order conditions up to p (exhaustive over trees; also run once per method and sign of h as the exhaustive part), (2) local-error slope (three smallest usable of five refinements) of one step from exact data of an autonomous linear closed-form problem (RK4, RK23, DOPRI5, DOP853, Radau with fully converged Newton), (3) one Radau step on y'=lambda*y, z=h*lambda in |z|<=20 (complex via the 2x2 rotation-scaling system) against the (2,3) Pade approximant, and every accepted step of ordinary multi-step Radau runs on y'=lambda*y (analytic Jacobian: the simplified Newton iteration is exact, so steps after rejections, with re-used factors and the clipped last step must all be Radau IIA steps, to 1e-11), (4) pure quadrature y'=p'(t) of degree <= d^ (estimate must vanish: every step grows by exactly the maximal factor; a quarter of these start with a fast transient that forces rejections, after which the growth must resume) and d^+1 (tolerance limited), (5) accepted steps vs tolerance exponent within [0.8/q, 1.35/q]. Non-trivial = the sub-check produced a verdict from a usable measurement (>= 3 slope points, >= 4 steps, >= 5 tolerance points with >= 30 steps). Distinct = distinct canonical JSON.".into(),
+        rule: "six kinds of cases: (0) low-level runs whose SolOut callback answers ControlFlag::XOut at generated callbacks (or prints equidistantly), dense_output default/true/false: every accepted step (xold, x, y) is bit-identical to the run whose callback answers Continue, i.e. the step after an XOut answer is still the method's step from (x, y); (1) tableau extraction at generated (x0 = k/8, h = +-2^j) with all rooted-tree order conditions up to p (exhaustive over trees; also run once per method and sign of h as the exhaustive part), (2) local-error slope (three smallest usable of five refinements) of one step from exact data of an autonomous linear closed-form problem (RK4, RK23, DOPRI5, DOP853, Radau with fully converged Newton), (3) one Radau step on y'=lambda*y, z=h*lambda in |z|<=20 (complex via the 2x2 rotation-scaling system) against the (2,3) Pade approximant, and every accepted step of ordinary multi-step Radau runs on y'=lambda*y (analytic Jacobian: the simplified Newton iteration is exact, so steps after rejections, with re-used factors and the clipped last step must all be Radau IIA steps, to 1e-11), (4) pure quadrature y'=p'(t) of degree <= d^ (estimate must vanish: every step grows by exactly the maximal factor; a quarter of these start with a fast transient that forces rejections, after which the growth must resume) and d^+1 (tolerance limited), (5) accepted steps vs tolerance exponent within [0.8/q, 1.35/q]. Non-trivial = the sub-check produced a verdict from a usable measurement (>= 3 slope points, >= 4 steps, >= 5 tolerance points with >= 30 steps). Distinct = distinct canonical JSON.".into(),
         assumptions: vec![
             "slope thresholds: RK4 4.5, RK23 3.5, DOPRI5 5.3, Radau 5.2, DOP853 7.5 (calibrated, see source); the decisive checks are the tree conditions (explicit methods) and the Pade approximant (Radau)".into(),
             "tree residual tolerance 2e-13, row sums 5e-14".into(),
